@@ -167,21 +167,21 @@ async fn history(role: Role, ch: &mut dyn Choose, rng: &mut Rng) -> Outc {
         let pkt = R::Publish { dup: rng.chance(1, 5) && qos > 0, qos, retain: rng.chance(1, 4), topic: topic.clone(), pid, props: props.clone(), payload: payload.clone() };
         let (dup, retain) = if let R::Publish { dup, retain, .. } = &pkt { (*dup, *retain) } else { (false, false) };
         let bytes = refcodec::encode(c.peer.ver, &pkt).unwrap();
-        let sent_seq = app.log(Ev::PeerSent(crate::map::brief(&pkt)));
+        let sent_seq = app.log_peer(&pkt);
         // delivery: whole, or in fragments (=> streamed payload)
         if ch.chance(1, 2) && bytes.len() > 8 {
             o.streamed += 1;
             let mut off = 0;
             while off < bytes.len() {
                 let k = (1 + rng.usize(bytes.len() / 2 + 1)).min(bytes.len() - off);
-                c.peer.write_quiet(&bytes[off..off + k]);
+                c.peer.write_part(&bytes[off..off + k]);
                 off += k;
                 if ch.chance(2, 3) {
                     c.settle().await;
                 }
             }
         } else {
-            c.peer.write_quiet(&bytes);
+            c.peer.write_part(&bytes);
         }
         msgs.push(Msg { idx, qos, pid, topic, dup, retain, props, payload, read, gated, outcome, sent_seq, rel_sent_seq: None });
         if ch.chance(1, 2) {
